@@ -686,3 +686,4 @@ META = {
 }
 
 META['explanation'] += ' ' + 'Further: options reach the filters as given; only supported structures ever enter grammar.txt; record layout of the PCFG files.'
+META['explanation'] += ' ' + 'Round 14: the mask application of the guesser starts every mask from an empty tail (guess length = structure length).'
